@@ -26,6 +26,7 @@ using namespace verif;
 static constexpr size_t ARENA_SIZE = 64u << 20;   // two zones of 32 MiB
 static unsigned char *arena_base = nullptr;
 static int g_mutex_held = 0;
+static bool g_poison_first = false;   // running for C03: after a failed map() the poison invariants are checked before the C04 oracle
 
 struct CountingMutex {
 	bool held = false;
@@ -340,6 +341,7 @@ struct SlabHarness : HarnessBase {
 		if(fail_at >= 0) {
 			if(failed) {
 				fails_used++;
+				if(poisoning && g_poison_first) for(auto &b : live) check_unpoisoned(b);
 				if(p) fail("C04", "alloc-nonnull-after-map-failure", "allocate returned a block although map() failed");
 				fails_used--; std::string after; canon(after); fails_used++;
 				if(after != canon_before) fail("C04", "state-changed-after-failed-alloc", "pool state / mapped regions / page counter differ after an allocation that failed in map()");
@@ -404,6 +406,7 @@ struct SlabHarness : HarnessBase {
 		end_op("realloc", r && (uintptr_t)r != old.p, n, r != nullptr);
 		if(failed) {
 			fails_used++;
+			if(poisoning && g_poison_first) for(auto &b : live) for(size_t k = 0; k < b.req; k++) if(g_shadow[b.p - (uintptr_t)arena_base + k]) fail("C03", "poison:live-byte-poisoned-after-failed-realloc", "after a realloc that failed in map() a requested byte of a live block (the source included) is poisoned");
 			if(r) fail("C04", "realloc-nonnull-after-map-failure", "realloc returned a block although map() failed");
 			fails_used--; std::string after; canon(after); fails_used++;
 			if(after != canon_before) fail("C04", "state-changed-after-failed-realloc", "pool state differs after a realloc that failed in map()");
@@ -590,6 +593,8 @@ static std::vector<Instance> instances(const std::string &tier) {
 	bool th = tier == "thorough";
 	const char *want = getenv("VERIF_PROP");
 	bool c04 = want && std::string(want) == "C04";
+	bool c03 = want && std::string(want) == "C03";
+	g_poison_first = c03;
 	std::vector<Instance> v;
 	std::vector<size_t> tiny = {0, 8, 9, 600, 1024, 1025, 4097};
 	std::vector<size_t> split = {0, 16, 300, 512, 513, 4000};
@@ -610,6 +615,11 @@ static std::vector<Instance> instances(const std::string &tier) {
 			IN1(v.push_back(sweep_inst<CfgTinyNP>("sweep-tinyNP" + bs, 0, th, b));)
 			IN2(v.push_back(sweep_inst<CfgSplit>("sweep-split" + bs, 0, th, b));)
 		}
+	}
+	if(c03) {   // the poison protocol must also hold across failing map() calls
+		IN0(v.push_back(slab_inst<CfgTinyA>("tinyA-L3-poison-after-map-failure", 3, 0, 1, tiny, th ? 5 : 4));)
+		IN1(v.push_back(slab_inst<CfgTinyU>("tinyU-skew256-L3-poison-after-map-failure", 3, 256, 1, tiny, th ? 5 : 4));)
+		IN2(v.push_back(slab_inst<CfgOdd>("odd-L2-poison-after-map-failure", 2, 0, 1, odd, th ? 4 : 3));)
 	}
 	// fixpoint runs over small alphabets: histories of every length
 	IN0(v.push_back(slab_inst<CfgTinyA>("tinyA-fix-8-1024-L3" + sfx, 3, 0, F, {8, 1024}, FIX));)
